@@ -103,6 +103,15 @@ remove_all may loop over a copy of the matches.  New clauses: move iterating its
 (one-shot iterables) is refuted; shared_list_stays_shared (5): the list query `__call__` never hands out the live list
 (`return self` / `_ImmutableTaskList(self._list)`), because remove_all walks the result while removing.  remove_all with the match
 test inside a loop over something else than the query is UNDECIDED (was a wrong `some matches are not removed`).
+
+Round 8: WBS `//` may be written out (`self.roots = self.roots + other` / `sentinel.children += other`; return other; replacing
+instead of adding / wrong return refuted); `_attach` / `_detach` as a worklist seeded with self (`_worklist_walk`; a walk that
+continues with parents is outside the subtree); remove_all may build its query per branch of a test on the key (each branch is
+checked: a branch that drops **kwargs - unless kwargs is known empty there - or the key - unless key is None there - is refuted).
+Children setter: a value de-duplicated with `_unique_tasks` before the re-parent loop is refuted (a task named again must end at
+its LAST position); selective removals that are followed by the complete clear are a pre-step (UNDECIDED, was a wrong `does not
+end up in the given order`).  Not decided: remove_all rewritten as one recursive pass that tests each task when it is visited
+(C16-r82) - whether that differs from `query first, then remove` depends on predicates that look at tree state.
 """
 from __future__ import annotations
 
@@ -1466,7 +1475,49 @@ def delegation_operators(a: A, ctx):
             if m:
                 hit = (r, v, m)
         if hit is None or len(rets) != 1:
-            if any(e.kind == 'setter' and e.name == 'children' for e in evs) or not evs:
+            # `//` of the sentinel written out: `self.roots = self.roots + other` / `sentinel.children += other`; return other
+            stores = [e for e in evs if e.kind == 'setter' and e.stmt is not None and e.name in ('roots', 'children')]
+            if len(stores) == 1 and len(evs) >= 1:
+                ev = stores[0]
+                recv = a.xp(f, ev.node.value, ev.cn)
+                on_self, on_root = ev.name == 'roots' and a.is_self(f, recv), ev.name == 'children' and a.is_self_attr(f, recv, ROOT)
+
+                def top_level(e):
+                    """the WBS's own roots list / the sentinel's children: the same list under both names"""
+                    return a.is_self(f, e) or a.is_self_attr(f, e, ROOT)
+                if not (on_self or on_root):
+                    o.refute(f, ev.stmt, ev.node, f"{what}: assigns `{src(ev.node)}` instead of the top-level tasks of the WBS")
+                else:
+                    ev.used = True
+                    aug, v, st = _store_value(a, f, ev)
+                    okv = False
+                    if aug:
+                        okv = isinstance(st.op, ast.Add) and a.is_param(f, v, 1)
+                    else:
+                        term = norm_list(v)
+                        if term[0] == 'concat' and len(term[1]) == 2:
+                            s0 = list_source(term[1][0]) if term[1][0][0] in ('ref', 'filter') else None
+                            s1 = list_source(term[1][1]) if term[1][1][0] in ('ref', 'filter') else None
+                            old_ok = isinstance(s0, ast.Attribute) and s0.attr in ('roots', 'children') and top_level(s0.value) and \
+                                (s0.attr == 'roots') == a.is_self(f, s0.value)
+                            new_ok = s1 is not None and (a.is_param(f, s1, 1) or (match("_to_list($x)", s1) and
+                                                                                   a.is_param(f, match("_to_list($x)", s1)['x'], 1)))
+                            okv = old_ok and new_ok
+                            if not okv and s1 is not None and isinstance(s1, ast.Attribute) and s1.attr in ('roots', 'children') and \
+                                    top_level(s1.value) and (a.is_param(f, s0, 1) if s0 is not None else False):
+                                o.refute(f, st, st.value, f"{what}: new items are put before the old top-level tasks")
+                                a.leftovers(o, f, what)
+                                return
+                    if not okv and not aug and (a.is_param(f, v, 1) or (match("_to_list($x)", v) and
+                                                                         a.is_param(f, match("_to_list($x)", v)['x'], 1))):
+                        o.refute(f, st, st.value, f"{what}: REPLACES the top-level tasks by the operand instead of adding to them")
+                    elif not okv:
+                        o.undecided(f, st, st.value, f"{what}: right-hand side is not `top-level tasks + other`")
+                    elif path_atoms(a, f, ev.cn):
+                        o.refute(f, st, st, f"{what}: the assignment is conditional")
+                    elif a.must_pass(o, f, [ev], [], what) and _returns_param(a, o, f, 1, what) and a.leftovers(o, f, what) == 0:
+                        o.site(f, st, src(st))
+            elif any(e.kind == 'setter' and e.name in ('children', 'roots') for e in evs) or not evs:
                 o.undecided(f, f.node, what, "not written as `return sentinel // other`")
             else:
                 o.refute(f, evs[0].node, evs[0].node, f"{what}: does not delegate to the sentinel's `//`")
@@ -1961,8 +2012,43 @@ def delegation_remove_all(a: A, ctx):
                 continue
             it, itn, fo = query
             # the query: self(key, **kwargs) / self.tasks(key, **kwargs)
-            okq = isinstance(it, ast.Call) and (a.is_self(f, it.func) if single else
-                                                (isinstance(it.func, ast.Attribute) and it.func.attr == 'tasks' and a.is_self(f, it.func.value)))
+            def query_form(x):
+                return isinstance(x, ast.Call) and (a.is_self(f, x.func) if single else
+                                                    (isinstance(x.func, ast.Attribute) and x.func.attr == 'tasks' and a.is_self(f, x.func.value)))
+            okq = query_form(it)
+            qname = None
+            if not okq and isinstance(it, ast.Name) and itn is not None:
+                # one query per branch of a test on the key (`if key is None: q = self(**kw) elif callable(key): q = self(key, **kw)`)
+                vs = _value_variants(f, it, itn)
+                if len(vs) > 1 and all(query_form(v0) and n0 is not None for v0, n0 in vs):
+                    verdicts = []
+                    for v0, n0 in vs:
+                        conds = [(strip_not(t0, p0)) for t0, p0, _ in _raw_atoms(f, n0)]
+                        k_ok = (len(v0.args) >= 1 and isinstance(v0.args[0], ast.Name) and v0.args[0].id == key_p) or \
+                            any(k.arg == 'key' and isinstance(k.value, ast.Name) and k.value.id == key_p for k in v0.keywords)
+                        kw_ok = any(k.arg is None and isinstance(k.value, ast.Name) and k.value.id == kw for k in v0.keywords)
+                        key_none = any((match(f"{key_p} is None", t0) and p0) or (match(f"{key_p} is not None", t0) and not p0) or
+                                       (match(f"{key_p}", t0) and not p0) for t0, p0 in conds)
+                        kw_none = kw is not None and any((match(f"{kw}", t0) and not p0) or (match(f"len({kw}) == 0", t0) and p0)
+                                                          for t0, p0 in conds)
+                        if not kw_ok and not kw_none:
+                            verdicts.append(('refute', v0, 'keyword filters'))
+                        elif not k_ok and not key_none:
+                            other_use = any(isinstance(n1, ast.Name) and n1.id == key_p for n1 in ast.walk(v0))
+                            verdicts.append(('undecided' if other_use else 'refute', v0, 'key'))
+                    bad_v = [x for x in verdicts if x[0] == 'refute']
+                    if bad_v:
+                        o.refute(f, rem[0].node, bad_v[0][1], f"{what}: on one branch the query `{src(bad_v[0][1])}` drops the caller's "
+                                                              f"{bad_v[0][2]}: more tasks than the matching ones are removed")
+                        a.leftovers(o, f, what)
+                        continue
+                    if verdicts:
+                        o.undecided(f, rem[0].node, verdicts[0][1], f"{what}: the query `{src(verdicts[0][1])}` passes the key in another "
+                                                                   f"way than `{'self' if single else 'self.tasks'}(key, **kwargs)`")
+                        a.leftovers(o, f, what)
+                        continue
+                    okq, qname = True, it.id
+                    it = vs[0][0]
             if not okq:
                 o.undecided(f, rem[0].node, fo.iter, f"{what}: the removed tasks are not the result of the list query `{'self' if single else 'self.tasks'}(key, **kwargs)`")
                 a.leftovers(o, f, what)
@@ -1970,7 +2056,7 @@ def delegation_remove_all(a: A, ctx):
             has_key = (len(it.args) >= 1 and isinstance(it.args[0], ast.Name) and it.args[0].id == key_p) or \
                 any(k.arg == 'key' and isinstance(k.value, ast.Name) and k.value.id == key_p for k in it.keywords)
             has_kw = any(k.arg is None and isinstance(k.value, ast.Name) and k.value.id == kw for k in it.keywords)
-            if not has_key or not has_kw:
+            if qname is None and (not has_key or not has_kw):
                 o.refute(f, rem[0].node, it, f"{what}: the query `{src(it)}` drops the caller's " + ('key' if not has_key else 'keyword filters') +
                          ": more tasks than the matching ones are removed")
                 a.leftovers(o, f, what)
@@ -1980,6 +2066,9 @@ def delegation_remove_all(a: A, ctx):
             noops = []
 
             def is_query(x, at_node):
+                if qname is not None:       # the per-branch query local itself (never rebound after the branches)
+                    return isinstance(x, ast.Name) and x.id == qname and at_node is not None and \
+                        {id(d) for d in flow_of(f).reaching(qname, at_node)} == {id(d) for d in flow_of(f).reaching(qname, itn)}
                 r0 = resolve(f, x, at_node)[0]
                 return isinstance(r0, ast.Call) and same(r0, it)
 
@@ -2000,6 +2089,8 @@ def delegation_remove_all(a: A, ctx):
                 rn = cfg.node_of(r)
                 v, vn, _ = resolve(f, r.value, rn) if r.value is not None else (None, None, 0)
                 if v is not None and vn is itn and same(v, it):
+                    continue
+                if qname is not None and r.value is not None and is_query(r.value, rn):
                     continue
                 if v is not None and (match("_ImmutableTaskList([])", v) or match("[]", v) or match("_ImmutableTaskList(list())", v)):
                     if any(says_empty(at, pol, tst) for at, pol, tst in _raw_atoms(f, rn)):
@@ -2214,8 +2305,14 @@ def children_setter(a: A, ctx):
                 # taking the old children out one by one: the same as emptying the list only when nobody is spared
                 k, fo = elem_class(a, f, w.node.args[0] if w.node.args else None, e.cn)
                 spared = path_atoms(a, f, e.cn, since=cfg.node_of(fo)) if fo is not None else [None]
+                later_clear = [e2 for e2 in writes if e2.w.field == FLD and a.is_self(f, e2.w.recv) and e2.w.kind == 'mutate:clear'
+                               and cfg.can_reach(e.cn, e2.cn) and not cfg.can_reach(e2.cn, e.cn) and not path_atoms(a, f, e2.cn)]
                 if k is not None and k[0] == 'copy' and k[1] == FLD and not spared:
                     o.undecided(f, w.node, w.node, "children setter empties its list by removing the old children one by one")
+                elif later_clear:
+                    # a pre-step: the list is still emptied completely afterwards, the order is rebuilt from the given value
+                    o.undecided(f, w.node, w.node, f"children setter takes some old children out (`{src(w.node)}`) before the list is "
+                                                   f"emptied and refilled anyway; the effect of this extra step is not followed")
                 else:
                     o.refute(f, w.node, w.node, "children setter does not empty the old list: old children are taken out selectively "
                                                 f"(`{src(w.node)}`" + (f" only when `{src(spared[0][0])}`" if spared and spared[0] else '') +
@@ -2328,7 +2425,18 @@ def children_setter(a: A, ctx):
                 o.refute(f, st, st, f"`{src(st)}`: the given tasks must get `self` as parent")
                 bad = True
             elif k is None or k[0] == 'other':
-                o.undecided(f, st, st, "re-parented tasks are not drawn from a loop over the assigned value")
+                a.uniq_ok = True
+                try:
+                    k_u, _fo = elem_class(a, f, e.node.value, e.cn)
+                finally:
+                    a.uniq_ok = False
+                if k_u is not None and k_u[0] == 'arg':
+                    o.refute(f, fo or st, (fo.iter if fo is not None else st),
+                             "the assigned sequence is de-duplicated (`_unique_tasks`, first occurrence wins) before the tasks are attached "
+                             "one by one: a task named again later in the value - `p // t` / `p.children += t` for a task that already is a "
+                             "child, `children = [a, b, a]` - is no longer taken out and appended at its LAST named position")
+                else:
+                    o.undecided(f, st, st, "re-parented tasks are not drawn from a loop over the assigned value")
                 bad = True
             elif k[0] == 'arg-reordered':
                 o.refute(f, fo, fo.iter, f"the given tasks are attached in the order of `{k[1]}(...)`, not in the given order: "
@@ -3005,6 +3113,12 @@ def _subtree_member(a: A, f, recv, cn):
         return 'no' if isinstance(recv, ast.Attribute) else '?'
     fo = enclosing_for_binding(f, cn, recv.id)
     if fo is None:
+        if recv.id not in f.params and f.self_name:
+            wk = _worklist_walk(a, f, f.self_name)
+            if wk is not None and wk[0] == 'ok' and wk[1] == recv.id:
+                return 'yes'        # popped from a worklist seeded with self and refilled with the children of what is popped
+            if wk is not None and wk[0] == 'refute' and 'instead of the children' in wk[2]:
+                return 'no'         # the walk leaves the subtree (continues with parents / linked tasks)
         return 'no' if recv.id in f.params else '?'
     it, at, _ = resolve(f, fo.iter, cfg_of(f).node_of(fo))
 
